@@ -111,10 +111,14 @@ struct DrainOnDrop<R: Read> {
 
 impl<R: Read> Read for DrainOnDrop<R> {
     fn read(&mut self, buf: &mut [u8]) -> io::Result<usize> {
+        if buf.is_empty() {
+            // nothing is asked for: do not let the decoder consume framing on the side,
+            // which would go unnoticed here (it reports 0 bytes in both cases)
+            return Ok(0);
+        }
         let result = self.inner.read(buf);
         match result {
-            Ok(0) if !buf.is_empty() => self.finished = true,
-            Err(_) => self.finished = true,
+            Ok(0) | Err(_) => self.finished = true,
             _ => (),
         }
         result
